@@ -63,11 +63,6 @@ impl Backend {
             })
             .collect();
 
-        // Early return if no fixtures have return types
-        if fixture_map.is_empty() {
-            return Ok(Some(Vec::new()));
-        }
-
         // Convert LSP range to internal line numbers (1-based)
         let start_line = Self::lsp_line_to_internal(range.start.line);
         let end_line = Self::lsp_line_to_internal(range.end.line);
@@ -82,10 +77,18 @@ impl Backend {
 
             // A fixture's own same-named parameter (`def fx(fx)`) denotes the fixture it
             // overrides, not the per-file entry: resolve it exactly like go-to-definition.
+            // The parameter may sit on any line of the (possibly wrapped) signature.
             let is_self_param = self
                 .fixture_db
-                .get_definition_at_line(&file_path, usage.line, &usage.name)
-                .is_some();
+                .definitions
+                .get(&usage.name)
+                .is_some_and(|defs| {
+                    defs.iter().any(|def| {
+                        def.file_path == file_path
+                            && def.line <= usage.line
+                            && usage.line <= def.end_line
+                    })
+                });
             let overridden = if is_self_param {
                 self.fixture_db
                     .find_fixture_definition(
